@@ -15,7 +15,7 @@ CHECKS = {
         "followed by 0x40 fill, and equals the one-shot blocking of the data up to one optional fill-only block "
         "(Props/C04.lean, 12 theorems, no hypotheses). The model is tied to /repo on every run by differential execution "
         "on every residue x boundary length (quick) / every length 0..3036 (thorough) plus random histories, with an "
-        "independent oracle on the implementation's bytes. In addition a SOURCE TIE: harness/pytrans.py translates the current Python text of Block1014.write / finalise (methods, self made explicit) into Lean (Gen/Src.lean) on every run and lean/Cardutil/SrcTie/Block.lean proves, for all inputs, that the translation equals the model (and restates the property for the translated code); when the source changes so that this no longer checks, the check runs its thorough generators before answering (the correspondence remains the deciding tie).",
+        "independent oracle on the implementation's bytes. In addition a SOURCE TIE: harness/pytrans.py translates the current Python text of Block1014.write / finalise (methods, self made explicit) and of the one-shot functions block_1014 / unblock_1014 into Lean (Gen/Src.lean) on every run and lean/Cardutil/SrcTie/Block.lean, OneShot.lean prove, for all inputs, that the translation equals the model (and restate the property for the translated code: C04_source, C04_source_oneshot); when the source changes so that this no longer checks, the check runs its thorough generators before answering (the correspondence remains the deciding tie).",
         "Trusted: Lean kernel; axioms propext/Classical.choice/Quot.sound; hand-written model of Block1014 (validated by the "
         "correspondence, sampled outside the enumerated sub-space); underlying file object appends (BytesIO).",
         "DESIGN.md §8 C04"),
@@ -37,7 +37,7 @@ CHECKS = {
         "++ 00000000, the blocked file is well-blocked with that stream as payload, and reading returns exactly the records "
         "(Props/C03.lean). Tied to /repo by differential execution on all 6000 single-record lengths x both formats, "
         "boundary multi-record files, special contents and random lists through class API, write_many/with, and the "
-        "list/bytes convenience functions, with an independent layout oracle. In addition a SOURCE TIE: harness/pytrans.py translates the current Python text of Block1014.write / finalise (methods, self made explicit) into Lean (Gen/Src.lean) on every run and lean/Cardutil/SrcTie/Block.lean proves, for all inputs, that the translation equals the model (and restates the property for the translated code); when the source changes so that this no longer checks, the check runs its thorough generators before answering (the correspondence remains the deciding tie).",
+        "list/bytes convenience functions, with an independent layout oracle. In addition a SOURCE TIE: harness/pytrans.py translates the current Python text of Block1014.write / finalise (methods, self made explicit) and of the one-shot functions block_1014 / unblock_1014 into Lean (Gen/Src.lean) on every run and lean/Cardutil/SrcTie/Block.lean, OneShot.lean prove, for all inputs, that the translation equals the model (and restate the property for the translated code: C04_source, C04_source_oneshot); when the source changes so that this no longer checks, the check runs its thorough generators before answering (the correspondence remains the deciding tie).",
         "Trusted: Lean kernel; standard axioms; hand-written models validated by the correspondence; struct.pack('>I') as 4 "
         "base-256 digits (< 2^32); MAX_VBS_RECORD_LENGTH re-translated from /repo each run.",
         "DESIGN.md §8 C03"),
